@@ -23,6 +23,7 @@ CHECK = {
     "entries": [
         {"fn": P + "vC01_basic", "replay": "model-only"},
         {"fn": P + "vC01_restart", "replay": "model-only", "opts": {"substitute": SUB_RESTART, "go_ignore": True, "stub": ["(*" + P + "PID).Shutdown"]}},
+        {"fn": P + "vC01_restartSuspended", "replay": "model-only", "opts": {"substitute": SUB_RESTART, "go_ignore": True, "stub": ["(*" + P + "PID).Shutdown"]}},
     ],
     "opts": {"rounds": 3, "unwind": 4, "unwind_mode": "assume", "substitute": SUB},
     "stop": list(SUB_RESTART.keys()),
